@@ -82,11 +82,14 @@ fn value_name(b: &[u8]) -> String {
 pub enum Kind {
     Memory { max_entries: usize },
     Disk { subdirs: bool },
+    /// MultiLayerCacheImpl over [Memory(1000), Disk]
+    Layered,
 }
 
 enum AnyCache {
     Mem(MemoryCache<SKey>),
     Disk(DiskCache<SKey>, #[allow(dead_code)] Scratch),
+    Layered(cascette_cache::MultiLayerCacheImpl<SKey>, #[allow(dead_code)] Scratch),
 }
 
 impl AnyCache {
@@ -126,18 +129,23 @@ impl AnyCache {
         match self {
             AnyCache::Mem(c) => run!(c),
             AnyCache::Disk(c, _) => run!(c),
+            AnyCache::Layered(c, _) => run!(c),
         }
     }
-    fn size(&self) -> Result<usize, String> {
+    /// None: this cache kind keeps no books the property talks about (layered: per-layer books
+    /// are the layers' own, judged through the Memory/Disk bodies).
+    fn size(&self) -> Result<Option<usize>, String> {
         match self {
-            AnyCache::Mem(c) => block_on(c.size()).map_err(|e| e.to_string()),
-            AnyCache::Disk(c, _) => block_on(c.size()).map_err(|e| e.to_string()),
+            AnyCache::Mem(c) => block_on(c.size()).map(Some).map_err(|e| e.to_string()),
+            AnyCache::Disk(c, _) => block_on(c.size()).map(Some).map_err(|e| e.to_string()),
+            AnyCache::Layered(..) => Ok(None),
         }
     }
-    fn usage(&self) -> Result<usize, String> {
+    fn usage(&self) -> Result<Option<usize>, String> {
         match self {
-            AnyCache::Mem(c) => block_on(c.stats()).map(|s| s.memory_usage_bytes).map_err(|e| e.to_string()),
-            AnyCache::Disk(c, _) => block_on(c.stats()).map(|s| s.memory_usage_bytes).map_err(|e| e.to_string()),
+            AnyCache::Mem(c) => block_on(c.stats()).map(|s| Some(s.memory_usage_bytes)).map_err(|e| e.to_string()),
+            AnyCache::Disk(c, _) => block_on(c.stats()).map(|s| Some(s.memory_usage_bytes)).map_err(|e| e.to_string()),
+            AnyCache::Layered(..) => Ok(None),
         }
     }
 }
@@ -155,6 +163,7 @@ impl CacheBody {
         match self.kind {
             Kind::Memory { .. } => "mem",
             Kind::Disk { .. } => "disk",
+            Kind::Layered => "layered",
         }
     }
     fn keys(&self) -> Vec<&'static str> {
@@ -306,6 +315,7 @@ impl SchedBody for CacheBody {
         let k = match &self.kind {
             Kind::Memory { max_entries } => format!("MemoryCache(max_entries={max_entries})"),
             Kind::Disk { subdirs } => format!("DiskCache(subdirs={subdirs})"),
+            Kind::Layered => "MultiLayerCacheImpl[Memory(1000),Disk]".to_string(),
         };
         format!("{k} setup[{}] tasks[{}]", s.join("; "), t.join(" || "))
     }
@@ -328,6 +338,15 @@ impl SchedBody for CacheBody {
                     .with_default_ttl(Duration::from_secs(3600))
                     .with_subdirectories(*subdirs, 1);
                 AnyCache::Disk(DiskCache::new(cfg).expect("disk cache"), sc)
+            }
+            Kind::Layered => {
+                let sc = Scratch::new("c11");
+                let mem = MemoryCacheConfig::new().with_max_entries(1000).with_eviction_policy(EvictionPolicy::Lru).with_default_ttl(Duration::from_secs(3600));
+                let disk = DiskCacheConfig::new(sc.path.join("cache")).with_max_files(1000).with_default_ttl(Duration::from_secs(3600)).with_subdirectories(false, 1);
+                let cfg = cascette_cache::config::MultiLayerCacheConfig::new().add_memory_layer(mem).add_disk_layer(disk);
+                // the constructor spawns its (idle) background tasks: it needs a runtime context
+                let c = block_on(async { cascette_cache::MultiLayerCacheImpl::new(cfg) }).expect("multi-layer cache");
+                AnyCache::Layered(c, sc)
             }
         };
         let cache = Arc::new(cache);
@@ -419,17 +438,269 @@ impl SchedBody for CacheBody {
             // (3) books after settling (the final gets touched every key)
             let size = c.size().map_err(|e| ("size-error".to_string(), e))?;
             let usage = c.usage().map_err(|e| ("stats-error".to_string(), e))?;
-            if size != live {
-                return Err(("books-entry-count".to_string(), format!("size() = {size} but {live} keys are retrievable ({finals:?})")));
+            if let Some(size) = size {
+                if size != live {
+                    return Err(("books-entry-count".to_string(), format!("size() = {size} but {live} keys are retrievable ({finals:?})")));
+                }
             }
-            if usage != bytes {
-                return Err(("books-usage".to_string(), format!("reported usage = {usage} bytes but retrievable content is {bytes} bytes ({finals:?})")));
+            if let Some(usage) = usage {
+                if usage != bytes {
+                    return Err(("books-usage".to_string(), format!("reported usage = {usage} bytes but retrievable content is {bytes} bytes ({finals:?})")));
+                }
             }
             let results: Vec<String> = ops.iter().map(|o| format!("{}={}", o.op, o.result)).collect();
             Ok(format!("{results:?} final {finals:?}"))
         });
         Execution { tasks, finish }
     }
+}
+
+
+// ---------------------------------------------------------------------------------------
+// DynamicContainer body: concurrent write / read / remove / query on one local container
+// ---------------------------------------------------------------------------------------
+
+#[derive(Clone, Debug, PartialEq)]
+pub enum DOp {
+    Write(&'static str),
+    Read(&'static str),
+    Remove(&'static str),
+    Query(&'static str),
+}
+
+impl DOp {
+    fn name(&self) -> String {
+        match self {
+            DOp::Write(v) => format!("dwrite {v}"),
+            DOp::Read(v) => format!("dread {v}"),
+            DOp::Remove(v) => format!("dremove {v}"),
+            DOp::Query(v) => format!("dquery {v}"),
+        }
+    }
+    fn obj(&self) -> &'static str {
+        match self {
+            DOp::Write(v) | DOp::Read(v) | DOp::Remove(v) | DOp::Query(v) => v,
+        }
+    }
+}
+
+fn dyn_payload(v: &str) -> Vec<u8> {
+    // sizes chosen so that a later, smaller object follows a larger one (mapping refresh)
+    let n = match v {
+        "A" => 1000,
+        "B" => 100,
+        _ => 3000,
+    };
+    (0..n).map(|i| (i as u8).wrapping_mul(7).wrapping_add(v.as_bytes()[0])).collect()
+}
+
+pub struct DynBody {
+    pub setup: Vec<DOp>,
+    pub tasks: Vec<Vec<DOp>>,
+}
+
+struct DynStore {
+    c: cascette_client_storage::container::DynamicContainer,
+    #[allow(dead_code)]
+    sc: Scratch,
+}
+
+impl DynStore {
+    fn exec(&self, op: &DOp) -> String {
+        use cascette_client_storage::container::Container;
+        let data = dyn_payload(op.obj());
+        let key = crate::props::c04::ekey_n(&data);
+        match op {
+            DOp::Write(_) => match block_on(self.c.write(&key, &data)) {
+                Ok(()) => "ok".into(),
+                Err(e) => format!("Err({e})"),
+            },
+            DOp::Read(v) => {
+                let mut buf = vec![0u8; data.len() + 64];
+                match block_on(self.c.read(&key, 0, data.len() as u32, &mut buf)) {
+                    Ok(n) => {
+                        if buf[..n] == data[..] {
+                            format!("bytes({v})")
+                        } else {
+                            format!("WRONG-BYTES({n} bytes)")
+                        }
+                    }
+                    Err(cascette_client_storage::StorageError::NotFound(_)) => "NotFound".into(),
+                    Err(e) => format!("Err({e})"),
+                }
+            }
+            DOp::Remove(_) => match block_on(self.c.remove(&key)) {
+                Ok(()) => "ok".into(),
+                Err(e) => format!("Err({e})"),
+            },
+            DOp::Query(_) => match block_on(self.c.query(&key)) {
+                Ok(b) => format!("{b}"),
+                Err(e) => format!("Err({e})"),
+            },
+        }
+    }
+}
+
+/// Sequential specification: a set of present objects.
+struct SetSpec;
+
+impl SeqSpec for SetSpec {
+    type State = std::collections::BTreeSet<String>;
+    fn init(&self) -> Self::State {
+        Default::default()
+    }
+    fn step(&self, st: &Self::State, op: &str, result: &str) -> Vec<Self::State> {
+        let parts: Vec<&str> = op.split(' ').collect();
+        let v = parts[1].to_string();
+        match parts[0] {
+            "dwrite" => {
+                if result == "ok" {
+                    let mut s = st.clone();
+                    s.insert(v);
+                    vec![s]
+                } else {
+                    vec![]
+                }
+            }
+            "dread" => {
+                if (st.contains(&v) && result == format!("bytes({v})")) || (!st.contains(&v) && result == "NotFound") {
+                    vec![st.clone()]
+                } else {
+                    vec![]
+                }
+            }
+            "dremove" => {
+                if result == "ok" {
+                    let mut s = st.clone();
+                    s.remove(&v);
+                    vec![s]
+                } else {
+                    vec![]
+                }
+            }
+            "dquery" => {
+                if result == format!("{}", st.contains(&v)) {
+                    vec![st.clone()]
+                } else {
+                    vec![]
+                }
+            }
+            _ => vec![],
+        }
+    }
+}
+
+impl SchedBody for DynBody {
+    fn name(&self) -> String {
+        let t: Vec<String> = self.tasks.iter().map(|ops| ops.iter().map(DOp::name).collect::<Vec<_>>().join("; ")).collect();
+        let s: Vec<String> = self.setup.iter().map(DOp::name).collect();
+        format!("DynamicContainer setup[{}] tasks[{}]", s.join("; "), t.join(" || "))
+    }
+    fn n_tasks(&self) -> usize {
+        self.tasks.len()
+    }
+    fn setup(&self) -> Execution {
+        let sc = Scratch::new("c11d");
+        let c = cascette_client_storage::container::DynamicContainer::builder(sc.path.join("store")).build().expect("container");
+        block_on(c.open()).expect("open");
+        let store = Arc::new(DynStore { c, sc });
+        let mut all_pre: Vec<OpRecord> = Vec::new();
+        for (i, op) in self.setup.iter().enumerate() {
+            let r = store.exec(op);
+            all_pre.push(OpRecord { task: 99, seq: i, op: op.name(), call: i as u64 * 2, ret: i as u64 * 2, result: r });
+        }
+        let mut tasks: Vec<TaskFn> = Vec::new();
+        for ops in &self.tasks {
+            let ops = ops.clone();
+            let st = store.clone();
+            tasks.push(Box::new(move |tc: &TaskCtx| {
+                for op in &ops {
+                    tc.op(&op.name(), || st.exec(op));
+                }
+            }));
+        }
+        let mut objs: Vec<&'static str> = self.setup.iter().chain(self.tasks.iter().flatten()).map(DOp::obj).collect();
+        objs.sort_unstable();
+        objs.dedup();
+        let st = store.clone();
+        let finish: FinishFn = Box::new(move |ops: &[OpRecord]| {
+            for o in ops {
+                if o.result.starts_with("Err(") {
+                    return Err(("spurious-error".to_string(), format!("`{}` of task {} failed with {}", o.op, o.task, o.result)));
+                }
+                if o.result.starts_with("WRONG-BYTES") {
+                    return Err(("wrong-bytes".to_string(), format!("`{}` returned {}: not the bytes that were written", o.op, o.result)));
+                }
+            }
+            let mut all = all_pre.clone();
+            for o in ops {
+                let mut o2 = o.clone();
+                o2.call += 100;
+                o2.ret += 100;
+                all.push(o2);
+            }
+            let mut step = ops.iter().map(|o| o.ret).max().unwrap_or(0) + 1000;
+            let mut finals = Vec::new();
+            for v in &objs {
+                for op in [DOp::Query(v), DOp::Read(v)] {
+                    let r = st.exec(&op);
+                    if r.starts_with("Err(") || r.starts_with("WRONG") {
+                        return Err(("final-read-error".to_string(), format!("after all tasks finished `{}` gives {r}", op.name())));
+                    }
+                    finals.push(format!("{}={r}", op.name()));
+                    all.push(OpRecord { task: 98, seq: finals.len(), op: op.name(), call: step, ret: step, result: r });
+                    step += 2;
+                }
+            }
+            if all.len() <= 14 && !linearizable(&SetSpec, &all) {
+                let h: Vec<String> = all.iter().map(|o| format!("t{} {} [{}..{}] -> {}", o.task, o.op, o.call, o.ret, o.result)).collect();
+                return Err(("not-linearizable".to_string(), format!("no sequential order of the set specification explains: {h:?}")));
+            }
+            let results: Vec<String> = ops.iter().map(|o| format!("{}={}", o.op, o.result)).collect();
+            Ok(format!("{results:?} final {finals:?}"))
+        });
+        Execution { tasks, finish }
+    }
+}
+
+fn dyn_bodies(tier: Tier) -> Vec<DynBody> {
+    let mut out = Vec::new();
+    let single: Vec<DOp> = vec![DOp::Write("B"), DOp::Read("A"), DOp::Remove("A"), DOp::Query("A"), DOp::Write("A"), DOp::Read("B")];
+    for pre in [vec![], vec![DOp::Write("A")]] {
+        for i in 0..single.len() {
+            for j in i..single.len() {
+                let ro = |o: &DOp| matches!(o, DOp::Read(_) | DOp::Query(_));
+                if ro(&single[i]) && ro(&single[j]) {
+                    continue;
+                }
+                out.push(DynBody { setup: pre.clone(), tasks: vec![vec![single[i].clone()], vec![single[j].clone()]] });
+            }
+        }
+    }
+    let two: Vec<Vec<DOp>> = vec![
+        vec![DOp::Write("B"), DOp::Read("B")],
+        vec![DOp::Write("C"), DOp::Read("A")],
+        vec![DOp::Remove("A"), DOp::Write("A")],
+        vec![DOp::Read("A"), DOp::Query("B")],
+    ];
+    for i in 0..two.len() {
+        for j in i..two.len() {
+            if tier == Tier::Quick && (i + j) % 2 == 1 {
+                continue;
+            }
+            out.push(DynBody { setup: vec![DOp::Write("A")], tasks: vec![two[i].clone(), two[j].clone()] });
+        }
+    }
+    if tier == Tier::Thorough {
+        for i in 0..single.len() {
+            for j in i..single.len() {
+                for l in j..single.len() {
+                    out.push(DynBody { setup: vec![DOp::Write("A")], tasks: vec![vec![single[i].clone()], vec![single[j].clone()], vec![single[l].clone()]] });
+                }
+            }
+        }
+    }
+    out
 }
 
 fn sig_for(class: &str) -> impl Fn(&str, &Trace) -> String + Sync + '_ {
@@ -531,7 +802,51 @@ fn bodies(tier: Tier) -> Vec<CacheBody> {
         out.push(CacheBody { kind: disk.clone(), setup: vec![], tasks: vec![vec![COp::Put("x.y", "a")], vec![COp::Put("x.z", "d")]], evicting: false });
         out.push(CacheBody { kind: disk.clone(), setup: vec![], tasks: vec![vec![COp::Put("x.y", "a"), COp::Get("x.y")], vec![COp::Put("x.z", "d"), COp::Get("x.z")]], evicting: false });
         // different plain keys: must be completely independent
-        out.push(CacheBody { kind: disk, setup: vec![], tasks: vec![vec![COp::Put("k", "a"), COp::Get("k")], vec![COp::Put("j", "d"), COp::Remove("j")]], evicting: false });
+        out.push(CacheBody { kind: disk.clone(), setup: vec![], tasks: vec![vec![COp::Put("k", "a"), COp::Get("k")], vec![COp::Put("j", "d"), COp::Remove("j")]], evicting: false });
+        // two operations per task on the colliding key
+        let dtwo: Vec<Vec<COp>> = vec![
+            vec![COp::Put("k", "b"), COp::Get("k")],
+            vec![COp::PutX("k", "c"), COp::Get("k")],
+            vec![COp::Get("k"), COp::Put("k", "d")],
+            vec![COp::Remove("k"), COp::Put("k", "d")],
+            vec![COp::Put("j", "d"), COp::Clear],
+        ];
+        if !subdirs || tier == Tier::Thorough {
+            for i in 0..dtwo.len() {
+                for j in i..dtwo.len() {
+                    out.push(CacheBody { kind: disk.clone(), setup: vec![COp::Put("k", "a")], tasks: vec![dtwo[i].clone(), dtwo[j].clone()], evicting: false });
+                }
+            }
+        }
+        if tier == Tier::Thorough {
+            // three tasks × one op
+            for i in 0..dsingle.len() {
+                for j in i..dsingle.len() {
+                    for l in j..dsingle.len() {
+                        out.push(CacheBody { kind: disk.clone(), setup: vec![COp::Put("k", "a")], tasks: vec![vec![dsingle[i].clone()], vec![dsingle[j].clone()], vec![dsingle[l].clone()]], evicting: false });
+                    }
+                }
+            }
+        }
+    }
+    // ---- MultiLayerCacheImpl over [Memory, Disk]: a layered get is a scan over the layers and may
+    // miss a key that a concurrent put moves between them; "nothing" is therefore not judged
+    // (lenient), everything else is: no value other than one some put wrote for that key and that
+    // has not been replaced before the get started, no failure, no torn value.
+    let lsingle: Vec<COp> = vec![COp::Get("k"), COp::Put("k", "b"), COp::Remove("k"), COp::Contains("k"), COp::PutX("k", "c")];
+    for pre in [vec![], vec![COp::Put("k", "a")]] {
+        for i in 0..lsingle.len() {
+            for j in i..lsingle.len() {
+                let ro = |o: &COp| matches!(o, COp::Get(_) | COp::Contains(_));
+                if ro(&lsingle[i]) && ro(&lsingle[j]) {
+                    continue;
+                }
+                if tier == Tier::Quick && (i + j) % 2 == 1 {
+                    continue;
+                }
+                out.push(CacheBody { kind: Kind::Layered, setup: pre.clone(), tasks: vec![vec![lsingle[i].clone()], vec![lsingle[j].clone()]], evicting: true });
+            }
+        }
     }
     out
 }
@@ -568,9 +883,26 @@ pub fn run(tier: Tier, seed: u64) -> i32 {
             rep.sample(serde_json::json!({"body": b.name(), "executions": st.executions, "by_preemptions": st.by_preemptions}));
         }
     }
+    let dbs = dyn_bodies(tier);
+    for (bi, b) in dbs.iter().enumerate() {
+        let Some(left) = budget.checked_sub(start.elapsed()) else {
+            rep.cap_hit(&format!("wall-clock budget hit before DynamicContainer body {bi} of {}", dbs.len()));
+            break;
+        };
+        let st = explore(b, bound, Some(left), &rep, &sig_for("dyn"));
+        total_exec += st.executions;
+        total_points += st.executions * st.max_points as u64;
+        nontrivial += st.by_preemptions.iter().skip(1).sum::<u64>();
+        if per_body.len() < 500 {
+            per_body.push(serde_json::json!({"body": b.name(), "executions": st.executions, "by_preemptions": st.by_preemptions, "max_points": st.max_points, "violating": st.violations}));
+        }
+        if bi % 20 == 0 {
+            rep.sample(serde_json::json!({"body": b.name(), "executions": st.executions, "by_preemptions": st.by_preemptions}));
+        }
+    }
     rep.add_transitions(total_points);
     rep.add_nontrivial_count(nontrivial);
-    rep.extra("bounds", serde_json::json!({"preemption_bound": bound, "bodies": bs.len(), "tasks_per_body": "2-3", "ops_per_task": "1-2"}));
+    rep.extra("bounds", serde_json::json!({"preemption_bound": bound, "bodies": bs.len() + dbs.len(), "tasks_per_body": "2-3", "ops_per_task": "1-2"}));
     rep.extra("per_body", serde_json::Value::Array(per_body));
     if total_exec > 0 && rep.outcomes() < 5 {
         rep.machinery_error("vacuous exploration: fewer than 5 distinct outcomes");
@@ -584,6 +916,28 @@ pub fn replay(w: &serde_json::Value) -> i32 {
     let sched: Vec<usize> = w["witness"]["schedule"].as_array().map(|a| a.iter().filter_map(|x| x.as_u64().map(|v| v as usize)).collect()).unwrap_or_default();
     for tier in [Tier::Quick, Tier::Thorough] {
         for b in bodies(tier) {
+            if b.name() == name {
+                let mut r = crate::sched::Runner::new(b.n_tasks());
+                let x = r.run(&b, &sched, &[]);
+                println!("body: {name}\nschedule: {sched:?}\nsite trace: {}", x.site_trace());
+                for o in &x.ops {
+                    println!("  t{} {} [{}..{}] -> {}", o.task, o.op, o.call, o.ret, o.result);
+                }
+                return match x.verdict {
+                    Ok(o) => {
+                        println!("no violation: {o}");
+                        0
+                    }
+                    Err((k, d)) => {
+                        println!("violates: {k}: {d}");
+                        1
+                    }
+                };
+            }
+        }
+    }
+    for tier in [Tier::Quick, Tier::Thorough] {
+        for b in dyn_bodies(tier) {
             if b.name() == name {
                 let mut r = crate::sched::Runner::new(b.n_tasks());
                 let x = r.run(&b, &sched, &[]);
